@@ -1,7 +1,7 @@
 (* PropC04.v — C04: queue positions never regress or get reused: any history of calls WITH CLEAN RESTARTS ANYWHERE (from a fresh directory, hist_ok); crash recovery rests on C02.
    Statements only; each theorem is closed by `exact <lemma>`; proofs live in the imported files. *)
 From Coq Require Import Lia NArith List.
-From MRL Require Import Bytes Params Names Frame Record Mem Spec Rolling Log Hist SpecRefine QueueIso RestartInv RestartFinal RestartCorollaries CrashCorollaries PersistSurvive CrashAtomic DamageAtomic.
+From MRL Require Import Bytes Params Names Frame Record Mem Spec Rolling Log Hist SpecRefine QueueIso RestartInv RestartFinal RestartCorollaries CrashCorollaries PersistSurvive CrashAtomic DamageAtomic PowerLoss PowerCorollaries.
 
 (* specification level: next position never decreases within an incarnation; last positions returned by appends strictly increase and lie in [old next, new next) *)
 Theorem C04_spec_next_monotone :
@@ -297,4 +297,84 @@ Theorem C04_crash_next_always :
     (forall q : bytes, l_deleted q (o, tick) out = false -> log_next st q <= log_next st_r q)).
 Proof. exact crash_next_always. Qed.
 Print Assumptions C04_crash_next_always.
+
+(* power loss (unsynced writes lost), any policy: the same as C04_crash_next_positions for every power-loss image *)
+Theorem C04_power_next_positions :
+    forall P : params,
+    7 < BS P ->
+    BS P <= 65542 ->
+    1 <= NB P ->
+    (forall (t : byte) (p : bytes), crcf P t p < 2 ^ 32) ->
+    L_GC P = false ->
+    L_IO P = false ->
+    L_SHORT P = false ->
+    TornProofs.no_zero_collision P ->
+    forall (st0 : state) (G0 : ghost),
+    Inv P st0 G0 ->
+    w_pending (s_wr st0) = [] ->
+    forall h : list (op * bool),
+    GhostLog.hist_wf P st0 h ->
+    RestartWrite.stream_bound P G0 (map snd (GhostLog.run_log P st0 h)) ->
+    forall evs : list event,
+    c_ev (w_ctx (s_wr (fst (run P st0 h)))) = rev evs ++ c_ev (w_ctx (s_wr st0)) ->
+    CB P st0 h ->
+    forall (cut : N) (pol : policy) (hint : list bytes),
+    exists (m : nat) (st_r : state),
+    (m <= length h)%nat /\
+    open P (fold_left Driver.apply_event (Driver.power_events evs cut) (c_fs (w_ctx (s_wr st0)))) None
+    pol hint = OpenOk st_r /\
+    (forall q : bytes,
+    log_next st_r q = next_or0 (s_get (fst (s_run (abs_qs (s_qs st0)) (firstn m (sops h)))) q) /\
+    log_last_position st_r q = s_last_position (fst (s_run (abs_qs (s_qs st0)) (firstn m (sops h)))) q) /\
+    (forall q : bytes,
+    log_next st_r q = log_next (fst (run P st0 (firstn m h))) q /\
+    log_last_position st_r q = log_last_position (fst (run P st0 (firstn m h))) q) /\
+    (forall q : bytes,
+    log_never_deleted q h (snd (run P st0 h)) ->
+    log_next st0 q <= log_next st_r q /\ (qs_get (s_qs st0) q <> None -> qs_get (s_qs st_r) q <> None)).
+Proof. exact power_next_positions. Qed.
+Print Assumptions C04_power_next_positions.
+
+(* if call i left everything flushed and synced and the power failed after it returned, recovered next positions are at least those after call i *)
+Theorem C04_power_next_after_persist :
+    forall P : params,
+    7 < BS P ->
+    BS P <= 65542 ->
+    1 <= NB P ->
+    (forall (t : byte) (p : bytes), crcf P t p < 2 ^ 32) ->
+    L_GC P = false ->
+    L_IO P = false ->
+    L_SHORT P = false ->
+    TornProofs.no_zero_collision P ->
+    forall (st0 : state) (G0 : ghost),
+    Inv P st0 G0 ->
+    w_pending (s_wr st0) = [] ->
+    forall h : list (op * bool),
+    GhostLog.hist_wf P st0 h ->
+    RestartWrite.stream_bound P G0 (map snd (GhostLog.run_log P st0 h)) ->
+    forall evs : list event,
+    c_ev (w_ctx (s_wr (fst (run P st0 h)))) = rev evs ++ c_ev (w_ctx (s_wr st0)) ->
+    CB P st0 h ->
+    forall (i : nat) (evs_i : list event),
+    (i <= length h)%nat ->
+    let st_i := fst (run P st0 (firstn i h)) in
+    w_pending (s_wr st_i) = [] ->
+    PersistProofs.wr_all_synced (s_wr st_i) ->
+    c_ev (w_ctx (s_wr st_i)) = rev evs_i ++ c_ev (w_ctx (s_wr st0)) ->
+    forall (cut : N) (pol : policy) (hint : list bytes),
+    lenN evs_i <= cut ->
+    exists (m : nat) (st_r : state),
+    (i <= m)%nat /\
+    (m <= length h)%nat /\
+    open P (fold_left Driver.apply_event (Driver.power_events evs cut) (c_fs (w_ctx (s_wr st0)))) None
+    pol hint = OpenOk st_r /\
+    (forall q : bytes,
+    log_next st_r q = next_or0 (s_get (fst (s_run (abs_qs (s_qs st0)) (firstn m (sops h)))) q)) /\
+    (forall q : bytes, log_next st_r q = log_next (fst (run P st0 (firstn m h))) q) /\
+    (forall q : bytes,
+    log_never_deleted q (skipn i h) (snd (run P st_i (skipn i h))) ->
+    log_next st_i q <= log_next st_r q /\
+    (qs_get (s_qs st_i) q <> None -> qs_get (s_qs st_r) q <> None)).
+Proof. exact power_next_after_persist. Qed.
+Print Assumptions C04_power_next_after_persist.
 
